@@ -69,16 +69,6 @@ theorem C08_close_can_proceed (f : Flow) (hs : f.st = .recvBody) (hh : f.holder 
     f.canProceed = .ok true := by
   unfold Flow.canProceed; simp [hs, hh, h]
 
-theorem pushReason_mem (l : List CloseReason) (r : CloseReason) (h : (pushReason l r).2 = .ok ()) :
-    r ∈ (pushReason l r).1 := by
-  unfold pushReason at h ⊢
-  by_cases hin : l.contains r = true
-  · simp only [hin, if_true]; simpa using hin
-  · simp only [hin] at h ⊢
-    by_cases hl : l.length < 5
-    · simp [hl]
-    · simp [hl] at h
-
 /-- **C08 (close-delimited, must close).** Entering the body state of a close-delimited response records
     the close reason, so the connection is marked for closing from then on. -/
 theorem C08_close_marks (hack : Bool) (f : Flow) (hs : f.st = .recvResponse) (hh : f.holder = .recvResponse)
